@@ -261,6 +261,30 @@ V('ret-check-len-minus1', ['C09'], 'R-RET', SW, ("            if vt_check == set
 V('ret-results-list', ['C09'], 'R-RET', SW, ("    repaired_results, count = set(), 1", "    repaired_results, count = [], 1"), ("                repaired_results.add(repaired_dna_sequence)\n            else:\n                chuck_flag", "                repaired_results.append(repaired_dna_sequence)\n            else:\n                chuck_flag"),
   ("        else:\n            repaired_results.add(repaired_dna_sequence)", "        else:\n            repaired_results.append(repaired_dna_sequence)"))
 
+# ---------------------------------------------------------------- R-PURE / R-STATE / R-VERB
+V('pure-mask-in-place', ['C20', 'C03'], 'R-PURE', SW, ("            new_vertices[vertex_index] = sum(vertices[latter_indices]) >= threshold\n", "            new_vertices[vertex_index] = sum(vertices[latter_indices]) >= threshold\n            if not new_vertices[vertex_index]:\n                vertices[vertex_index] = False\n"))
+V('pure-latter-map-view-store', ['C20'], 'R-PURE', GR, ("        vertex = accessor[location]\n        latter_map[location] = vertex[vertex >= 0].tolist()", "        vertex = accessor[location]\n        vertex[vertex < -1] = -1\n        latter_map[location] = vertex[vertex >= 0].tolist()"))
+V('pure-bit-array-store', ['C20'], 'R-PURE', OP, ("    monitor = Monitor()\n    if is_string:\n        decimal_number = \"0\"\n\n        for index, a_bit in enumerate(bit_array):", "    monitor = Monitor()\n    bit_array[0] = int(bit_array[0])\n    if is_string:\n        decimal_number = \"0\"\n\n        for index, a_bit in enumerate(bit_array):"))
+V('pure-useless-in-place', ['C20', 'C03'], 'R-PURE', GR, ("                new_latter_map[former_vertex] = available_latter_vertices", "                new_latter_map[former_vertex] = available_latter_vertices\n                latter_map[former_vertex] = available_latter_vertices"))
+V('pure-score-deletes-key', ['C20', 'C19'], 'R-PURE', GR, ("            del delete_branch\n", "            del delete_branch\n            if len(latter_map[current_index]) == 0:\n                del latter_map[current_index]\n"))
+V('pure-capacity-column-view', ['C20'], 'R-PURE', GR, ("            for positions in accessor.T:\n                available = where(positions >= 0)", "            for positions in accessor.T:\n                positions[positions < -1] = -1\n                available = where(positions >= 0)"))
+V('pure-alias-then-store', ['C20'], 'R-PURE', SW, ("    vertex_index, nucleotides, monitor = start_index, \"ACGT\", Monitor()\n", "    vertex_index, nucleotides, monitor = start_index, \"ACGT\", Monitor()\n    table = shuffles\n    if table is not None:\n        table[0].sort()\n"))
+V('pure-shuffle-argument', ['C20'], 'R-PURE', SW, ("        quotient = bit_to_number(binary_message, verbose=verbose)", "        random.shuffle(binary_message)\n        quotient = bit_to_number(binary_message, verbose=verbose)"))
+V('pure-filter-remembers', ['C20', 'C02'], 'R-PURE', BF, ("        if only_last:\n            observed_dna_sequence = dna_sequence[-self.observed_length:]", "        self.last_sequence = dna_sequence\n        if only_last:\n            observed_dna_sequence = dna_sequence[-self.observed_length:]"))
+V('pure-matrix-augmented', ['C20'], 'R-PURE', GR, ("    for vertex_index, vertex in enumerate(matrix):\n        next_indices = where(vertex == 1)[0].tolist()", "    matrix *= 1\n    for vertex_index, vertex in enumerate(matrix):\n        next_indices = where(vertex == 1)[0].tolist()"))
+V('state-memo-dict', ['C20'], 'R-STATE', GR, ("def obtain_latters(current, observed_length):", "LATTER_CACHE = {}\n\n\ndef obtain_latters(current, observed_length):"),
+  ("        latters.append(latter)\n\n    return latters", "        latters.append(latter)\n\n    LATTER_CACHE[(current, observed_length)] = latters\n\n    return latters"))
+V('state-mutable-default', ['C20'], 'R-STATE', GR, ("def path_matching(dna_sequence, accessor, previous_index, occur_location, has_indel=False, nucleotides=None):", "def path_matching(dna_sequence, accessor, previous_index, occur_location, has_indel=False, nucleotides=None, seen=[]):"))
+V('state-rng-in-encode', ['C20'], 'R-STATE', SW, ("        quotient = bit_to_number(binary_message, verbose=verbose)", "        random.seed(len(binary_message))\n        quotient = bit_to_number(binary_message, verbose=verbose)"))
+V('state-global-counter', ['C20'], 'R-STATE', OP, ("def calculus_addition(number, base):", "CALLS = 0\n\n\ndef calculus_addition(number, base):"), ("    number, base = list(number), list(base.zfill(len(number)))\n\n    result = [0 for _ in range(len(number) + 1)]", "    global CALLS\n    CALLS += 1\n    number, base = list(number), list(base.zfill(len(number)))\n\n    result = [0 for _ in range(len(number) + 1)]"))
+V('state-clock-in-result', ['C20'], 'R-STATE', OP, ("def bit_to_number(bit_array, is_string=True, verbose=False):", "def bit_to_number(bit_array, is_string=True, verbose=False, started=None):"), ("    monitor = Monitor()\n    if is_string:\n        decimal_number = \"0\"", "    monitor = Monitor()\n    started = datetime.now() if started is None else started\n    if is_string:\n        decimal_number = \"0\""))
+V('verb-assignment-in-region', ['C20'], 'R-VERB', SW, ("            if verbose:\n                monitor(location + 1, len(binary_message))", "            if verbose:\n                location += 0\n                monitor(location + 1, len(binary_message))"))
+V('verb-state-change-in-region', ['C20', 'C01'], 'R-VERB|R-WALK|R-DEG', SW, ("            if verbose:\n                monitor(location + 1, len(dna_sequence))\n\n        for location, (out_degree, number)", "            if verbose:\n                monitor(location + 1, len(dna_sequence))\n                vertex_index = int(vertex_index)\n\n        for location, (out_degree, number)"))
+V('verb-monitor-outside', ['C20'], 'R-VERB', SW, ("        if verbose:\n            monitor(vertex_index + 1, len(vertices), extra={\"valid\": sum(vertices[: vertex_index + 1])})", "        monitor(vertex_index + 1, len(vertices), extra={\"valid\": sum(vertices[: vertex_index + 1])})"))
+V('verb-numpy-int-to-dna', ['C20'], 'R-TYPED', SW, ("        print(\"Remove arc \" + number_to_dna(int(former), dna_length=observed_length)", "        print(\"Remove arc \" + number_to_dna(former, dna_length=observed_length)"))
+V('verb-result-depends', ['C20'], 'R-VERB', GR, ("    if verbose:\n        print(\"Remove useless vertex, the out-degree of witch less than \" + str(threshold) + \".\")", "    if verbose:\n        print(\"Remove useless vertex, the out-degree of witch less than \" + str(threshold) + \".\")\n        threshold = int(threshold)"))
+V('verb-passed-as-other-flag', ['C20'], 'R-VERB', SW, ("        quotient = bit_to_number(binary_message, verbose=verbose)", "        quotient = bit_to_number(binary_message, is_string=not verbose or True, verbose=verbose)"))
+
 # ---------------------------------------------------------------- benign twins (every property must stay exit 0)
 ALL = ['C%02d' % i for i in range(1, 21)]
 for name, fn in twins.TWINS.items():
